@@ -99,6 +99,45 @@ theorem C14t_stutter_is_spin_or_spurious (s s' : St) (e : Ev) (h : step s e = so
     exact Or.inr ⟨a, rq, src, k, rfl, h2, hk, acq_enabled_of_cas s a k ha h2 hk⟩
   | _ => simp [stutter] at hs
 
+/-- **The stutter needs somebody else to stand still.**  In a reachable state of the repaired code
+    an accepted stutter of activity `a` is either a spin re-load while *another* activity holds the
+    lock — and that holder has an enabled step of its own, which is a moving event (`mu`
+    decreases) and releases the lock: the spinning goes on only as long as the holder is not
+    scheduled — or a spurious CAS failure, in which case `a`'s own successful CAS is enabled.
+    Hence under any scheduler that eventually runs the lock holder, and with a CAS that does not
+    fail spuriously for ever, every run of a finite program terminates. -/
+theorem C14t_stutter_while_holder_stands_still (s s' : St) (e : Ev) (hr : Reachable s)
+    (h : step s e = some s') (hs : stutter s e = true) :
+    (∃ hd eh, s.lock = some hd ∧ hd ≠ actor e ∧ actor eh = hd ∧ enabled s eh = true ∧
+        moving s eh = true ∧ ∀ s1, step s eh = some s1 → s1.lock = none ∧ mu s1 < mu s) ∨
+    (s.lock = none ∧ enabled s (.acq (actor e)) = true ∧ moving s (.acq (actor e)) = true) := by
+  have hA := invA_of_reachable hr
+  rcases C14t_stutter_is_spin_or_spurious s s' e h hs with ⟨a, rq, src, k, he, hl, hk⟩ | ⟨a, rq, src, k, he, hl, hk, hen⟩
+  · left
+    subst he
+    cases hlk : s.lock with
+    | none => rw [hlk] at hl; simp at hl
+    | some hd =>
+      obtain ⟨eh, h1, h2, h3, h4⟩ := holder_steps hA hlk
+      have hne : hd ≠ a := by
+        intro heq
+        have := (hA.lockConv hd hlk).1
+        rw [heq, hk] at this; simp [holds] at this
+      have hmv : moving s eh = true := by
+        have henv : envEv eh = false := by cases eh <;> simp_all [productive, envEv]
+        cases hst : stutter s eh
+        · simp [moving, henv, hst]
+        · exfalso
+          simp only [enabled, Option.isSome_iff_exists] at h3
+          obtain ⟨s1, hs1⟩ := h3
+          have h5 := h4 s1 hs1
+          have h6 := (mu_step s s1 eh hs1).2.1 hst
+          rw [h6, hlk] at h5; simp at h5
+      refine ⟨hd, eh, rfl, hne, h1, h3, hmv, fun s1 hs1 => ⟨h4 s1 hs1, (mu_step s s1 eh hs1).2.2.1 hmv⟩⟩
+  · right
+    subst he
+    exact ⟨hl, hen, by simp [moving, envEv, stutter]⟩
+
 /-- the stutter is genuinely accepted, any number of times (`decide`-checked): thread 1 spins
     while thread 0 holds the lock — so no measure can decrease with *every* non-environment event -/
 theorem C14t_stutter_witness :
@@ -383,6 +422,20 @@ theorem C14t_program_bounded (n K : Nat) (ident : Nat → Nat) (fixCas fixCtor :
     rw [mu_init]
     simp [init]
   omega
+
+/-- **No callback runs, and nothing touches its object, after its destructor returned — along
+    every run of every program** (`C14q_never_after_dtor_returned` through the refinement): if the
+    log of a program (repaired code, faithful thread identities) contains the return `ret b r` of
+    `remove_callback(c)`, no later event of the log is a dequeue, `is_removed_` publication,
+    invocation, finished store or push of `c`. -/
+theorem C14t_program_never_after_dtor (n K : Nat) (ident : Nat → Nat) (fc : Bool) (srcs : Nat)
+    (ops : Nat → List Op) (m : Nat) (hK : 0 < K) (hid : ∀ a b, ident a = ident b ↔ a % K = b % K)
+    (l₁ l₂ : List Ev) (b c : Nat) (r r' : Bool) (e : Ev) (p₁ p : PSt)
+    (h1 : runLog pstep (pinit n K ident true fc srcs ops m) l₁ = some p₁)
+    (hb : p₁.s.pc b = .retn (.unreg c) r')
+    (h2 : runLog pstep p₁ (.ret b r :: (l₂ ++ [e])) = some p) : touches e ≠ some c :=
+  C14q_never_after_dtor_returned n K ident fc srcs hK hid l₁ l₂ b c r r' e p₁.s p.s
+    (runLog_pstep_step l₁ _ _ h1) hb (runLog_pstep_step _ _ _ h2)
 
 /-- the run of a program is over: the program state accepts nothing but stutters -/
 def PMaximal (p : PSt) : Prop := ∀ e p', pstep p e = some p' → stutter p.s e = true
